@@ -39,4 +39,12 @@ PROPS = {
         trusted_base=TB_COMMON + ["tools/extract intx: Go uintN expressions -> BitVec N (wrap-around +, shifts by constants, &,|,^, conversions = setWidth)"],
         rule="random op sequences (set/setSQN/setOverflow/inc/reads) biased to edge values + carry boundaries + increment walks (thorough: all 2^24 states); non-trivial = distinct op sequence executed",
     ),
+    "C09": dict(
+        level="proof", modules=["NasVerif.Props.C09"], parts=["Acc"],
+        streams=[("acc", 24, 200)], oracle="C09",
+        trusted_base=TB_COMMON + ["tools/extract accessors: typed Go expression -> Acc.E (literal transcription; GetBitMask inlined from its own body)",
+                                   "Spec/AccessorLayout.lean + spec/accessor_layout.json: the Row/sBit/len annotations at the pinned commit (TS 24.501 figure layouts)",
+                                   "Buffer-backed accessors: theorems assume the Buffer is long enough to contain the field's rows (a shorter Buffer makes the Go accessor panic)"],
+        rule="every accessor pair x (all-zero / all-one / random prior contents) x (0, max, field-width boundary, random values); thorough: exhaustive 256x256 per single-octet 8-bit-typed field; non-trivial = distinct op executed",
+    ),
 }
